@@ -250,6 +250,33 @@ func EnumCases() []*Case {
 			}
 		}
 	}
+	// info fields: alone in the file (nothing else pulls in the annotations import), next to an object, inline
+	for _, shape := range []string{"alone", "with-object", "option-info-only", "two-fields"} {
+		f := file("t/v1", "a")
+		e := enumD("Kind", "ONE", "TWO", "THREE")
+		e.Info = []InfoField{{Name: "colour", Label: "Colour", Desc: "the colour"}}
+		e.Options[0].Info = map[string]string{"colour": "red"}
+		e.Options[2].Info = map[string]string{"colour": "blue"}
+		switch shape {
+		case "alone":
+			f.Add(e)
+		case "with-object":
+			f.Add(e)
+			f.Add(obj("Foo", fld("kind", RefTo(e, ""))))
+		case "inline":
+			e.Name = ""
+			f.Add(obj("Foo", fld("kind", InlineOf(e))))
+		case "option-info-only":
+			e.Info = nil
+			f.Add(e)
+		case "two-fields":
+			e.Info = append(e.Info, InfoField{Name: "weight", Label: "Weight"})
+			e.Options[0].Info["weight"] = "1"
+			e.Options[1].Info = map[string]string{"weight": "2"}
+			f.Add(e)
+		}
+		out = append(out, &Case{ID: "enum:info:" + shape, Family: "enums", Coord: "enums|info", P: &Program{Files: []*File{f}}})
+	}
 	return out
 }
 
